@@ -202,6 +202,19 @@ CLAIMS = {
         "Trusted: rustc typed HIR / MIR, driver, engine; sqlparser's AST; the reference tables in rules/C18.py; subscribers keep up with the channel (stated).",
         "static analysis: typed-HIR variant/operator tables, MIR comparison-edge dominance, value provenance through select!",
         "DESIGN.md §3 C18"),
+    "C17": (
+        "R1 panic-site enumeration over the MIR of the ingest handlers, the hand-written protobuf reader, the converters and the synchronous part of Ingester::write "
+        "(34 sites today: overflow / bounds / shift asserts, unwrap, slice indexing, arrow value(i)); each is discharged automatically from the comparison edges that "
+        "guard it (index < len on every path with no redefinition in between, start + c <= len for data[start..start+c], ends produced by the bounded helper on its "
+        "success edge, shift amounts re-checked on every cycle, positions bounded by the loop guard plus a small constant, wire-derived lengths never accepted) or by a "
+        "reviewed entry whose stated guard is re-verified on every run; anything else is reported; R2 in the per-sample loop every path pushes exactly once on each of "
+        "the five base columns and exactly one value column gets Some (path enumeration over typed HIR), one label value per known label; R3 ms -> ns by "
+        "checked_mul(1_000_000), metric name by a full scan for __name__, all other label names collected, OTLP timestamps unscaled, OTLP resource labels computed per "
+        "ResourceMetrics iteration. Not decided: numeric equality at 2^63, prost / snappy / arrow decoders, hangs other than non-advancing positions.",
+        "Trusted: rustc's explicit Assert terminators at mir-opt-level 0 (every overflow / bounds / shift check is visible), driver, engine; the reviewed summaries of "
+        "read_varint (.1 <= data.len()) and field_end (pos <= end <= data.len()); the REVIEWED table in rules/C17.py.",
+        "static analysis: MIR panic-site enumeration with guard discharge over comparison edges; HIR path enumeration (lock-step pushes); HIR shape tables",
+        "DESIGN.md §3 C17"),
 }
 
 NOT_YET = "rule set under construction in this round; see DESIGN.md §3 for the planned static rules"
